@@ -216,8 +216,8 @@ def build_source(SM):
   return "\n".join(parts), stats
 
 
-LIFT = ("_sensor_pos", "_sensor_vel")
-LIFT_TYPES = {"writes__": "(list (write S))"}  # every other lifted local is an integer
+LIFT = ("_sensor_pos", "_sensor_vel", "_sensor_acc")
+LIFT_TYPES = {"writes__": "(list (write S))", "contact_forcetorque": "(list S)"}  # every other lifted local is an integer
 
 
 def lift_body(text, name):
@@ -282,6 +282,30 @@ def outline_branch(text, defname, newname, cond_prefix):
   return "\n".join(lines[:start] + new + [""] + lines[start : i + 1] + [call] + lines[j:])
 
 
+def split_geom(text, name):
+  """k__sensor_pos_geom = search loops producing (dist, (pnts, flip)), then the writes.  Split at
+  the last top-level `let flip := snd (snd p__N) in` into `<name>_search` (the tuple) and
+  `<name>_write params dist pnts flip`; `<name>` becomes their composition."""
+  import re
+
+  lines = text.split("\n")
+  start = next(i for i, l in enumerate(lines) if l.startswith(f"Definition {name} "))
+  head = lines[start]
+  m = re.match(r"Definition (\S+) (.*) : \(list \(write S\)\) :=$", head)
+  params = m.group(2)
+  pnames = re.findall(r"\((\w+) : ", params)
+  end = next(j for j in range(start, len(lines)) if lines[j] == "")
+  k = max(j for j in range(start, end) if re.match(r"^  let flip := snd \(snd (p__\d+)\) in$", lines[j]))
+  pn = re.match(r"^  let flip := snd \(snd (p__\d+)\) in$", lines[k]).group(1)
+  if lines[k - 2] != f"  let dist := fst {pn} in" or lines[k - 1] != f"  let pnts := fst (snd {pn}) in":
+    raise ValueError(f"{name}: unexpected shape before the writes")
+  search = [f"Definition {name}_search {params} : (S * ((list S) * bool)) :="] + lines[start + 1 : k - 2] + [f"  {pn}.", ""]
+  write = [f"Definition {name}_write {params} (dist : S) (pnts : (list S)) (flip : bool) : (list (write S)) :="] + lines[k + 1 : end] + [""]
+  args = " ".join(pnames)
+  comp = [head, f"  let p__s := ({name}_search {args}) in", f"  ({name}_write {args} (fst p__s) (fst (snd p__s)) (snd (snd p__s))).", ""]
+  return "\n".join(lines[:start] + search + write + comp + lines[end + 1 :])
+
+
 def _module():
   if "mod" in _cache:
     return _cache["mod"]
@@ -328,6 +352,10 @@ def _make(tag, kernels, outfile):
         text = lift_body(text, "k_" + kn)
     if "_sensor_pos" in kernels and "_sensor_pos" in tr.kernels:
       text = outline_branch(text, "k__sensor_pos_body", "k__sensor_pos_geom", "((Z.eqb sensortype (39)%Z)")
+      text = split_geom(text, "k__sensor_pos_geom")
+    if "_sensor_acc" in kernels and "_sensor_acc" in tr.kernels:
+      # the contact-sensor branch out of line: coqc needs ~30 s instead of ~150 s for the file
+      text = outline_branch(text, "k__sensor_acc_body", "k__sensor_acc_contact", "(Z.eqb sensortype (42)%Z)")
     vlib.write_if_changed(os.path.join(vlib.COQ, "Gen", outfile), text)
     _cache[tag] = tr
     return tr
@@ -335,7 +363,7 @@ def _make(tag, kernels, outfile):
   return gen
 
 
-# `_sensor_acc` (contact-sensor slots: ~1300 generated lines, ~2 min of coqc) lives in its own file so
+# `_sensor_acc` (contact-sensor slots: ~1300 generated lines, ~30 s of coqc) lives in its own file so
 # that the theorems (Props/C07.v imports Gen.K_sensor only) do not wait for it; it is built in parallel
 # and used by the kernel validation.
 GENS = {
